@@ -39,6 +39,7 @@ enum Cmd {
     Broadcast { slot: usize },
     Join { slot: usize },
     Leave { slot: usize },
+    LoopOff { slot: usize },
     Drop { slot: usize },
     Send { slot: usize, dst: SocketAddr, payload: Vec<u8> },
     /// drain every socket of this host with a buffer of `buflen` (try_recv_from), or through
@@ -65,6 +66,8 @@ struct MSock {
     broadcast: bool,
     joined: bool,
     alive: bool,
+    /// IP_MULTICAST_LOOP switched off on this socket
+    loop_off: bool,
 }
 
 fn group(v6: bool) -> IpAddr {
@@ -141,6 +144,11 @@ pub fn scenario(ch: &mut Chooser, thorough: bool) -> Exec {
                                 st2.borrow_mut().results.push((h, format!("leave{slot} {:?}", r.map_err(|e| errk(&e)))));
                             }
                         }
+                        Cmd::LoopOff { slot } => {
+                            if let Some(s) = &socks[slot] {
+                                let _ = if v6 { s.set_multicast_loop_v6(false).map_err(|e| e.to_string()) } else { s.set_multicast_loop_v4(false).map_err(|e| e.to_string()) };
+                            }
+                        }
                         Cmd::Drop { slot } => {
                             socks[slot] = None;
                         }
@@ -197,7 +205,7 @@ pub fn scenario(ch: &mut Chooser, thorough: bool) -> Exec {
         if conflict {
             continue;
         }
-        let mut ms = MSock { host: h, slot, lo: lob, port, peer: None, broadcast: false, joined: false, alive: true };
+        let mut ms = MSock { host: h, slot, lo: lob, port, peer: None, broadcast: false, joined: false, alive: true, loop_off: false };
         if p == Preset::WildPJoined {
             pending.push((h, Cmd::Join { slot }));
             ms.joined = true;
@@ -212,7 +220,7 @@ pub fn scenario(ch: &mut Chooser, thorough: bool) -> Exec {
     // ---- dynamic operations
     let nops = ch.choose("dynamic_ops", if thorough { 4 } else { 3 });
     for _ in 0..nops {
-        let op = ch.choose("op", 6);
+        let op = ch.choose("op", 7);
         let alive_slots: Vec<usize> = (0..model.len()).filter(|&i| model[i].alive).collect();
         if alive_slots.is_empty() {
             break;
@@ -244,6 +252,12 @@ pub fn scenario(ch: &mut Chooser, thorough: bool) -> Exec {
                 model[t].broadcast = true;
                 obs.push(format!("host{h} slot{slot} set_broadcast"));
             }
+            6 => {
+                pending.push((h, Cmd::LoopOff { slot }));
+                model[t].loop_off = true;
+                obs.push(format!("host{h} slot{slot} set_multicast_loop(false)"));
+                feats.push("loop-off");
+            }
             4 => {
                 // bind port P again on the other slot of the host whose socket was dropped
                 let dead = model.iter().find(|m| !m.alive && m.port == P).map(|m| (m.host, m.slot));
@@ -252,7 +266,7 @@ pub fn scenario(ch: &mut Chooser, thorough: bool) -> Exec {
                     let ns = 1 - slot.min(1);
                     if !model.iter().any(|m| m.alive && m.host == h && m.slot == ns) {
                         pending.push((h, Cmd::Bind { slot: ns, lo: false, port: P }));
-                        model.push(MSock { host: h, slot: ns, lo: false, port: P, peer: None, broadcast: false, joined: false, alive: true });
+                        model.push(MSock { host: h, slot: ns, lo: false, port: P, peer: None, broadcast: false, joined: false, alive: true, loop_off: false });
                         obs.push(format!("host{h} slot{ns} bind wildcard:{P} again"));
                         feats.push("rebound-port");
                     }
@@ -348,6 +362,14 @@ pub fn scenario(ch: &mut Chooser, thorough: bool) -> Exec {
                     }
                 }
             }
+            // with IP_MULTICAST_LOOP off (on the sending socket or on the local member) whether a
+            // member on the sender's own host sees the datagram is not asserted
+            let dontcare: Vec<(usize, usize)> = if dst.ip().is_multicast() {
+                model.iter().filter(|m| m.alive && m.host == s.host && (m.loop_off || s.loop_off)).map(|m| (m.host, m.slot)).collect()
+            } else {
+                vec![]
+            };
+            want.retain(|x| !dontcare.contains(x));
             want.sort();
             want.dedup();
             let g = st.borrow();
@@ -374,6 +396,7 @@ pub fn scenario(ch: &mut Chooser, thorough: bool) -> Exec {
                 got.push((*h, *slot));
             }
             let mut gs = got.clone();
+            gs.retain(|x| !dontcare.contains(x));
             gs.sort();
             if gs != want {
                 let clause = if gs.len() > want.len() || gs.iter().any(|x| !want.contains(x)) { "misrouted" } else { "not-delivered" };
